@@ -113,6 +113,17 @@ def catalogue():
         branch("b1", [], **{"if": "c1"}),
         branch("b2", [step("s21", [irq("a2")])], **{"else": True}),
     ]), step("s2", [irq("a3")])]), {"c1": "$bool"})
+    C["catch_nomatch_then_step"] = (wf("m", [step("s1", [irq("a1", catches=[catch([step("cs1", [irq("ca1")])], on="e2")]), irq("a2")],
+                                                  catches=[catch([step("cs2", [irq("ca2")])])]), step("s2", [irq("a3")])]), {})
+    C["catch_two_codes"] = (wf("m", [step("s1", [irq("a1", catches=[catch([step("cs1", [irq("ca1")])], on="e2"), catch([step("cs2", [irq("ca2")])], on="e1")])]),
+                                     step("s2", [irq("a3")])]), {})
+    C["catch_outer_step_branch"] = (wf("m", [step("s1", branches=[
+        branch("b1", [step("s11", [irq("a1")])], **{"if": "c1"}),
+        branch("b2", [step("s21", [irq("a2")])], **{"else": True}),
+    ], catches=[catch([step("cs1", [irq("ca1")])], on="e1")]), step("s2", [irq("a3")])]), {"c1": "$bool"})
+    C["catch_none"] = (wf("m", [step("s1", [irq("a1"), irq("a2")]), step("s2", [irq("a3")])]), {})
+    C["catch_all_and_code"] = (wf("m", [step("s1", [irq("a1", catches=[catch([step("cs1", [irq("ca1")])]), catch([step("cs2", [irq("ca2")])], on="e1")])]),
+                                        step("s2", [irq("a3")])]), {})
     C["tail_if"] = (wf("m", [step("s1", [irq("a1")]), step("s2", [irq("a2")], **{"if": "c1"})]), {"c1": "$bool"})
     C["branch_tail_if"] = (wf("m", [step("s1", branches=[
         branch("b1", [step("s11", [irq("a1")]), step("s12", [irq("a2")], **{"if": "c2"})], **{"if": "c1"}),
